@@ -19,6 +19,13 @@ def run(tier, seed):
     for rec in recs:
         if len(json.dumps(rec["v"])) > 4000:
             continue
+        # ... and any value held as the tail of an improper list without elements (top level, and the first element one level down)
+        for where in ("top", "child"):
+            v2 = copy.deepcopy(rec["v"])
+            tgt = v2 if where == "top" else next((n for n in list(E.walk(v2))[1:2]), None)
+            if tgt is not None and tgt.get("k") not in ("list", "nil") and "wrap" not in tgt:
+                tgt["wrap"] = "headless"
+                extra.append({**rec, "id": f"{rec['id']}~headless_{where}", "v": v2, "alts": []})
         for kind in ("bits8", "list"):
             v2 = copy.deepcopy(rec["v"])
             hit = None
